@@ -2,6 +2,7 @@
 package c12
 
 import (
+	"strings"
 	"bytes"
 	"encoding/json"
 	"fmt"
@@ -151,8 +152,13 @@ func (c *checker) one(in []byte, op int, cfg fmtcfg.Cfg, opts []jsontext.Options
 	if !refjson.Equal(ti, to, eq) {
 		return fmt.Sprintf("output %q does not denote the same value as input", out)
 	}
-	if !mo.CanonInts && !mo.CanonFloats && !spellingsKept(in, out, '0', mo.Reorder) {
-		return fmt.Sprintf("number spelling changed without a Canonicalize option: %q", out)
+	// integer literals (no fraction, no exponent) are governed by CanonicalizeRawInts alone, all other number
+	// literals by CanonicalizeRawFloats alone
+	if !mo.CanonInts && !spellingsKept(in, out, 'i', mo.Reorder, mo.CanonFloats) {
+		return fmt.Sprintf("the spelling of an integer literal changed without CanonicalizeRawInts: %q", out)
+	}
+	if !mo.CanonFloats && !spellingsKept(in, out, 'f', mo.Reorder) {
+		return fmt.Sprintf("the spelling of a number with fraction or exponent changed without CanonicalizeRawFloats: %q", out)
 	}
 	if mo.Preserve && !mo.HTML && !mo.JS && !spellingsKept(in, out, '"', mo.Reorder) {
 		return fmt.Sprintf("string spelling changed under PreserveRawStrings without an escape option: %q", out)
@@ -171,18 +177,35 @@ func (c *checker) one(in []byte, op int, cfg fmtcfg.Cfg, opts []jsontext.Options
 	return ""
 }
 
-// spellingsKept checks that the tokens of the given kind are spelled identically in input and
-// output: as a sequence, or as a multiset when members may be reordered.
-func spellingsKept(in, out []byte, kind byte, reorder bool) bool {
+// spellingsKept checks that the tokens of the given kind are spelled identically in input and output: as a
+// sequence, or as a multiset when members may be reordered. For the number classes 'i' (integer literal) and
+// 'f' (fraction or exponent present) the class is that of the INPUT token: the token at the same position of the
+// output (or, under reordering, some distinct number token of the output) must have the same spelling.
+func spellingsKept(in, out []byte, kind byte, reorder bool, negZeroFree ...bool) bool {
+	nzf := len(negZeroFree) > 0 && negZeroFree[0]
 	po := refjson.Opts{AllowInvalidUTF8: true, AllowDupNames: true}
+	base := kind
+	if kind == 'i' || kind == 'f' {
+		base = '0'
+	}
 	collect := func(b []byte) []string {
 		var l []string
 		for _, t := range refjson.Parse(b, po).Toks {
-			if t.Kind == kind {
+			if t.Kind == base {
 				l = append(l, string(b[t.Start:t.End]))
 			}
 		}
 		return l
+	}
+	inClass := func(lit string) bool {
+		switch kind {
+		case 'i':
+			// documented special case of both Canonicalize options: -0 may be written as 0
+			return !strings.ContainsAny(lit, ".eE") && !(nzf && lit == "-0")
+		case 'f':
+			return strings.ContainsAny(lit, ".eE")
+		}
+		return true
 	}
 	la, lb := collect(in), collect(out)
 	if len(la) != len(lb) {
@@ -190,22 +213,22 @@ func spellingsKept(in, out []byte, kind byte, reorder bool) bool {
 	}
 	if !reorder {
 		for i := range la {
-			if la[i] != lb[i] {
+			if inClass(la[i]) && la[i] != lb[i] {
 				return false
 			}
 		}
 		return true
 	}
 	cnt := map[string]int{}
-	for _, x := range la {
+	for _, x := range lb {
 		cnt[x]++
 	}
-	for _, x := range lb {
-		cnt[x]--
-	}
-	for _, n := range cnt {
-		if n != 0 {
-			return false
+	for _, x := range la {
+		if inClass(x) {
+			if cnt[x] == 0 {
+				return false
+			}
+			cnt[x]--
 		}
 	}
 	return true
@@ -379,6 +402,28 @@ func product(r *evid.Run) {
 		}
 	})
 	r.Bound("full product: all %d subsets of the 13 formatting options x %d corpus documents (Format)", total, len(docs))
+	// explicit false: every boolean option switched off explicitly (alone, and after having been switched on),
+	// through every operation - Compact / Indent / Canonicalize start from presets that such an option overrides
+	var offs []cfgReal
+	for i := 0; i < 11; i++ {
+		offs = append(offs, mk(fmtcfg.Cfg{Off: 1 << i}))
+		offs = append(offs, mk(fmtcfg.Cfg{Off: 1 << i, Pre: 1 << i}))
+	}
+	offs = append(offs, namedConfigs()...)
+	ck := &checker{out: map[string]int64{}}
+	var n int64
+	for _, d := range docs {
+		for _, cf := range offs {
+			for op := 0; op < 6; op++ {
+				ck.prep(d)
+				ck.check(r, d, op, cf.c, cf.o)
+				n++
+			}
+		}
+	}
+	r.Outcomes(ck.out)
+	r.Nontrivial.Add(n)
+	r.Bound("explicit false: %d corpus documents x {each boolean option false; true then false; the named configurations} x 6 operations", len(docs))
 }
 
 func reorderStress(r *evid.Run) {
